@@ -348,7 +348,9 @@ MANIFEST = {
              "return, error and panic all leave a non-alive state); complete (for every event list — monitor start/Close/crash, partition, archetype start/end, detector start, polls in any order — "
              "in which the target is down throughout: TRUE after the first poll and at every later moment); accurate_when_up (target up and reachable throughout: FALSE from the first successful "
              "poll on); settles_within_three_polls (from any detector state, incl. a stale connection to a dead incarnation); read_pure (ReadValue is a function of the state, blocks at most one "
-             "interval and only while uninitialized). Tie: harness/cmd/c19 runs event scripts against real Monitor/SingleFailureDetector objects on 127.0.0.1 through a forwarder that can cut/freeze "
+             "interval and only while uninitialized); no_delay_after_first_poll / uninit_until_first_poll (history level of the read-delay clause: after the first tick of a running loop no read ever aborts "
+             "or blocks again, before it every read blocks exactly one interval); report_changes_only_at_polls / detector_off_is_frozen (frame: no environment event, only a tick of the detector's own running loop, "
+             "changes the detector state or a read's result); alive_report_sound (a poll never yields 'alive' unless the monitor was serving, reachable and held AAlive at that instant). Tie: harness/cmd/c19 runs event scripts against real Monitor/SingleFailureDetector objects on 127.0.0.1 through a forwarder that can cut/freeze "
              "connections; the reads are compared with the model (a wait of k intervals = k-2..k+2 polls); an implementation-side oracle checks completeness, accuracy, read latency and RunArchetype's results "
              "against the script's ground truth."),
     "level_note": ("PARTIAL ON TIMING: theorems count polls; that a tick completes within timeout + interval (net/rpc, time.Ticker) is only sampled at 20-50 ms intervals on loopback, and a differing or failing "
